@@ -24,12 +24,12 @@ func init() {
 				Flavours: []string{"plain", "race", "cover", "386"},
 				Blocks:   32,
 				Procs:    16,
-				Rule: "(o) sparse-observation histories (trees of 64+ keys, operations chosen with locality, only the results of Get/Min/Max/Add/Replace/Remove themselves observed, on a tree and its clones), nested and interleaved scans (InorderAfter started inside a running scan; pull iterators on a tree and its clone stepped alternately), 8 goroutines each working on its own Clone of one prototype, and 8 goroutines that only read one shared tree with no writer around (Get, Min, Max, Len, Inorder, InorderAfter, Cursor walks; both also under -race); (i') deep-then-shrunk trees: monotone insertions at 14 loose balance factors x 6 sizes, then removal of the far end key by key with InorderAfter from below the minimum, the minimum, the middle and the maximum checked after every removal; (i) rebuild sweep (seed-independent): the delete-side whole-tree rebuild is forced to run at exactly size s for every s <= 400 (2500 thorough) and for 2^k-3..2^k+3, k <= 13 (16), and the contents are compared afterwards; (ii) case = (beta, comparator granularity incl. comparators that return differences instead of -1/0/+1, bulk-New keys, phase-structured history of Add/Replace/Remove/Clear/Clone over up to 3 live trees). " +
+				Rule: "(o) sparse-observation histories (trees of 64+ keys, operations chosen with locality, only the results of Get/Min/Max/Add/Replace/Remove themselves observed, on a tree and its clones), nested and interleaved scans (InorderAfter started inside a running scan; one sequence value ranged inside its own loop body and pulled by two iterators at once; pull iterators on a tree and its clone stepped alternately), 8 goroutines each working on its own Clone of one prototype, and 8 goroutines that only read one shared tree with no writer around (Get, Min, Max, Len, Inorder, InorderAfter, Cursor walks; both also under -race); (i') deep-then-shrunk trees: monotone insertions at 14 loose balance factors x 6 sizes, then removal of the far end key by key with InorderAfter from below the minimum, the minimum, the middle and the maximum checked after every removal; (i) rebuild sweep (seed-independent): the delete-side whole-tree rebuild is forced to run at exactly size s for every s <= 400 (2500 thorough) and for 2^k-3..2^k+3, k <= 13 (16), and the contents are compared afterwards; (ii) case = (beta, comparator granularity incl. comparators that return differences instead of -1/0/+1, bulk-New keys, phase-structured history of Add/Replace/Remove/Clear/Clone over up to 3 live trees). " +
 					"Phases: ascending / descending / zig-zag / random inserts, mixed random ops, drains (to empty, to 1/8, to 1/2; ascending, descending, random order), forced two-child removals followed by Get of the promoted successor, Clear, Clone. " +
 					"After EVERY call: Len, IsEmpty, Min, Max, (every fifth step first a scan abandoned half-way: its loop body panics and the caller recovers,) full Inorder (with stored tags), Inorder early stop, Get for all/sampled keys, InorderAfter for sampled keys with early stop; range functions returned by InorderAfter are put aside and ranged only after later Add/Remove/Clear calls (they must then describe the tree as it is at that moment). " +
 					"beta: quick uses {0,1,2,50,100,250,500,750,999,1000}; thorough additionally sweeps every beta in 0..1000. " +
 					"distinct = hash of (beta, div, every op with its key); non-trivial = the history contained a scapegoat rebuild on insert, a delete-side whole rebuild, or a two-child removal (detected from the tree shape read through Root/Left/Right)",
-				Required:     []string{"insert_rebuilds", "delete_rebuilds", "two_child_removals", "new_with_duplicates", "clones", "replace_existing", "steps", "histories_with_wide_comparator", "rebuilds_at_exact_size", "clone_worker_rounds", "sparse_observation_histories", "nested_scan_cases", "abandoned_scans", "kept_range_functions_ranged_later", "shared_reader_rounds", "deep_then_shrink_cases", "bulk_new_with_stateful_comparator"},
+				Required:     []string{"insert_rebuilds", "delete_rebuilds", "two_child_removals", "new_with_duplicates", "clones", "replace_existing", "steps", "histories_with_wide_comparator", "rebuilds_at_exact_size", "clone_worker_rounds", "sparse_observation_histories", "nested_scan_cases", "sequence_values_ranged_inside_their_own_loop", "abandoned_scans", "kept_range_functions_ranged_later", "shared_reader_rounds", "deep_then_shrink_cases", "bulk_new_with_stateful_comparator"},
 				Assumptions:  []string{"reference model: sorted slice with textbook set semantics", "tree shape for reach counters is read through stree.Cursor (checked separately by C03)"},
 				CoverPkgs:    []string{"github.com/creachadair/mds/stree"},
 				CoverAnchors: []string{"stree/stree.go", "stree/node.go"},
@@ -676,6 +676,63 @@ func c01nested(c *fw.Ctx, r *rand.Rand, beta int) {
 			c.Fail(data, "InorderAfter(%d) with other scans started inside its loop body yields %v, want %v", k1, outer, want(k1))
 			return
 		}
+		// one sequence value ranged from inside its own loop body (pairs a <= b
+		// enumerated with a single sequence), completely and with an early stop,
+		// and two pull iterators over that same value stepped alternately
+		seq := t.InorderAfter(Elem{Key: k1})
+		var self, inner []int
+		for e := range seq {
+			self = append(self, e.Key)
+			if len(self)%4 == 2 {
+				inner = inner[:0]
+				for e2 := range seq {
+					inner = append(inner, e2.Key)
+					if len(self)%8 == 6 && len(inner) == 2 {
+						break
+					}
+				}
+				w := want(k1)
+				if len(self)%8 == 6 && len(w) > 2 {
+					w = w[:2]
+				}
+				if !equalInts(inner, w) {
+					c.Fail(data, "seq := InorderAfter(%d): ranging seq inside a running range over the same seq yields %v, want %v", k1, inner, w)
+					return
+				}
+			}
+		}
+		if !equalInts(self, want(k1)) {
+			c.Fail(data, "seq := InorderAfter(%d): a range over seq whose loop body ranges over seq too yields %v, want %v", k1, self, want(k1))
+			return
+		}
+		{
+			p1, s1 := iter.Pull(seq)
+			p2, s2 := iter.Pull(seq)
+			var a, b []int
+			for {
+				e1, ok1 := p1()
+				if ok1 {
+					a = append(a, e1.Key)
+				}
+				var ok2 bool
+				if len(a)%2 == 0 || !ok1 {
+					var e2 Elem
+					if e2, ok2 = p2(); ok2 {
+						b = append(b, e2.Key)
+					}
+				}
+				if !ok1 && !ok2 {
+					break
+				}
+			}
+			s1()
+			s2()
+			if !equalInts(a, want(k1)) || !equalInts(b, want(k1)) {
+				c.Fail(data, "two pull iterators over one InorderAfter(%d) sequence value stepped alternately yield %v and %v", k1, a, b)
+				return
+			}
+		}
+		c.Add("sequence_values_ranged_inside_their_own_loop", 1)
 		// two pull iterators stepped alternately
 		nx1, st1 := iter.Pull(t.InorderAfter(Elem{Key: k1}))
 		nx2, st2 := iter.Pull(dup.InorderAfter(Elem{Key: k2}))
